@@ -6,6 +6,7 @@ import (
 	"sort"
 	"strings"
 	"time"
+	"unicode"
 
 	"verifharness/common"
 )
@@ -41,23 +42,34 @@ type message struct {
 
 var words = []string{"alpha", "bravo", "charlie", "delta", "echo", "foxtrot", "golf", "hotel", "india", "juliet", "kilo", "lima", "mike", "november", "oscar", "papa"}
 var phrases = []string{"quick brown", "lazy dog", "over the moon", "ten green bottles"}
+
+// words with characters outside ASCII (raw UTF-8 in the messages), grouped by the 8-bit charsets that can express them
+var latinWords = []string{"café", "réunion", "über", "señor", "garçon", "àpropos", "smörgås", "crème", "niño", "élan"}
+var latin9Words = []string{"cœur", "žena", "šest"} // in ISO-8859-15 and windows-1252, not in ISO-8859-1
+var cyrWords = []string{"привет", "москва", "почта", "ёлка", "дача"}
+
+func nonASCIIWords() []string {
+	return append(append(append([]string{}, latinWords...), latin9Words...), cyrWords...)
+}
+
 var hosts = []string{"example.com", "mail.test", "proton.example"}
 var xnames = []string{"X-Tag", "x-tag", "X-TAG", "X-Custom-Field", "x-CuStOm-field", "Comments", "Keywords"}
 
+// randCase: a random mix of upper and lower case (rune by rune, simple Unicode case pairs)
 func randCase(rng *common.Rng, s string) string {
+	r := []rune(s)
 	switch rng.Pick(4) {
 	case 0:
 		return strings.ToUpper(s)
 	case 1:
-		return strings.ToUpper(s[:1]) + s[1:]
+		return string(unicode.ToUpper(r[0])) + string(r[1:])
 	case 2:
-		b := []byte(s)
-		for i := range b {
-			if rng.Chance(0.5) && b[i] >= 'a' && b[i] <= 'z' {
-				b[i] -= 32
+		for i := range r {
+			if rng.Chance(0.5) {
+				r[i] = unicode.ToUpper(r[i])
 			}
 		}
-		return string(b)
+		return string(r)
 	}
 	return s
 }
@@ -68,6 +80,9 @@ func genItems(rng *common.Rng, n int) []string {
 	for i := 0; i < n; i++ {
 		if rng.Chance(0.2) {
 			it = append(it, randCase(rng, phrases[rng.Pick(len(phrases))]))
+		} else if rng.Chance(0.22) {
+			nw := nonASCIIWords()
+			it = append(it, randCase(rng, nw[rng.Pick(len(nw))]))
 		} else {
 			it = append(it, randCase(rng, words[rng.Pick(len(words))]))
 		}
@@ -97,7 +112,12 @@ func foldItems(rng *common.Rng, items []string, sep string) (string, string) {
 
 func genAddr(rng *common.Rng) string {
 	w := words[rng.Pick(len(words))]
-	return fmt.Sprintf("%s %s <%s@%s>", randCase(rng, words[rng.Pick(len(words))]), randCase(rng, w), w, hosts[rng.Pick(len(hosts))])
+	first := words[rng.Pick(len(words))]
+	if rng.Chance(0.3) { // display names with characters outside ASCII (raw UTF-8)
+		nw := nonASCIIWords()
+		first = nw[rng.Pick(len(nw))]
+	}
+	return fmt.Sprintf("%s %s <%s@%s>", randCase(rng, first), randCase(rng, w), w, hosts[rng.Pick(len(hosts))])
 }
 
 var dayNames = []string{"Sun", "Mon", "Tue", "Wed", "Thu", "Fri", "Sat"}
